@@ -253,12 +253,17 @@ fn c01_ser_fd__complete() {
 // requires v ASCII of length L <= N (bounded), window has room
 // ensures  Ok(()); bytes = [s,o: pad(abs,4) zeros ++ u32 L] / [g: u8 L] ++ the L content bytes ++ 0x00;
 //          counter/writer advanced by exactly that many; no other byte changed
+// The signature parser is never reached when a string VALUE is encoded (only when the signature OF A VARIANT is);
+// it is stubbed so that code which wrongly reaches it stays analysable (the winnow parser is out of CBMC's reach)
+// and shows up in the state-frame obligation instead of as a tool crash.
+fn stub_sig_from_str_any(_s: &str) -> core::result::Result<Signature, zvariant_utils::signature::Error> { Ok(Signature::Unit) }
 macro_rules! ser_str_unit {
     ($name:ident, $n:expr, $sig:expr, $lenword:expr,
      $o_ok:literal, $o_adv:literal, $o_pad:literal, $o_len:literal, $o_content:literal, $o_nul:literal, $o_frame:literal) => {
         #[cfg(kani)]
         #[kani::proof]
         #[kani::stub(alloc::fmt::format, stub_format)]
+        #[kani::stub(<Signature as std::str::FromStr>::from_str, stub_sig_from_str_any)]
         #[kani::stub(<Signature as std::clone::Clone>::clone, stub_sig_clone)]
         #[kani::unwind(3)]
         fn $name() {
